@@ -466,22 +466,22 @@ Definition predicate_of (ev : node -> M xvalue) (n : node) : M bool :=
             end).
 
 (** ** function calls (eval_func_expr and the node-set functions of func.rs) *)
-Definition n_last : str := [108;97;115;116].
-Definition n_position : str := [112;111;115;105;116;105;111;110].
-Definition n_count : str := [99;111;117;110;116].
-Definition n_id : str := [105;100].
-Definition n_local_name : str := [108;111;99;97;108;45;110;97;109;101].
-Definition n_namespace_uri : str := [110;97;109;101;115;112;97;99;101;45;117;114;105].
-Definition n_name : str := [110;97;109;101].
-Definition n_lang : str := [108;97;110;103].
-Definition n_sum : str := [115;117;109].
+Definition fn_last : str := [108;97;115;116].
+Definition fn_position : str := [112;111;115;105;116;105;111;110].
+Definition fn_count : str := [99;111;117;110;116].
+Definition fn_id : str := [105;100].
+Definition fn_local_name : str := [108;111;99;97;108;45;110;97;109;101].
+Definition fn_namespace_uri : str := [110;97;109;101;115;112;97;99;101;45;117;114;105].
+Definition fn_name : str := [110;97;109;101].
+Definition fn_lang : str := [108;97;110;103].
+Definition fn_sum : str := [115;117;109].
 Definition s_xmlns : str := [120;109;108;110;115].
 
 (** func::table(): (name, min, max) with inclusive bounds; every namespace URI is None *)
 Definition node_fn_table : list (str * N * option N) :=
-  [ (n_last, 0, Some 0); (n_position, 0, Some 0); (n_count, 1, Some 1); (n_id, 1, Some 1);
-    (n_local_name, 0, Some 1); (n_namespace_uri, 0, Some 1); (n_name, 0, Some 1);
-    (n_lang, 1, Some 1); (n_sum, 1, Some 1) ].
+  [ (fn_last, 0, Some 0); (fn_position, 0, Some 0); (fn_count, 1, Some 1); (fn_id, 1, Some 1);
+    (fn_local_name, 0, Some 1); (fn_namespace_uri, 0, Some 1); (fn_name, 0, Some 1);
+    (fn_lang, 1, Some 1); (fn_sum, 1, Some 1) ].
 
 Definition func_table : list (str * N * option N) := node_fn_table ++ scalar_table.
 
@@ -530,7 +530,7 @@ Fixpoint lang_fuel (fuel : nat) (name : str) (cur : option node) : res bool :=
       | S f =>
           if nkind_eqb (kind doc e) KElement then
             match find (fun a => match name_of doc a with
-                                 | XName l _ _ => str_eqb l n_lang
+                                 | XName l _ _ => str_eqb l fn_lang
                                  | _ => false end) (attributes doc e) with
             | Some a =>
                 bind (data_res (n_data (getd doc a))) (fun v =>
@@ -577,38 +577,38 @@ Definition of_scalar (v : value) : xvalue :=
   end.
 
 Definition uses_ctx_sv (name : str) : bool :=
-  str_eqb name n_string || str_eqb name n_string_length || str_eqb name n_normalize_space
-  || str_eqb name n_number.
+  str_eqb name fn_string || str_eqb name fn_string_length || str_eqb name fn_normalize_space
+  || str_eqb name fn_number.
 
 (** [Entry::exec] *)
 Definition exec_fn (local : str) (args : list xvalue) (n : node) : M xvalue :=
   fun c =>
-    if str_eqb local n_last then (Ok (XNum (f64_of_N (get_size c))), c)
-    else if str_eqb local n_position then (Ok (XNum (f64_of_N (get_position c))), c)
-    else if str_eqb local n_count then
+    if str_eqb local fn_last then (Ok (XNum (f64_of_N (get_size c))), c)
+    else if str_eqb local fn_position then (Ok (XNum (f64_of_N (get_position c))), c)
+    else if str_eqb local fn_count then
       (match args with
        | XNodes l :: _ => Ok (XNum (f64_of_N (len l)))
        | _ :: _ => Err EInvalidType
        | [] => Panic end, c)
-    else if str_eqb local n_id then
+    else if str_eqb local fn_id then
       (match root_of n with
-       | d :: _ => if has_doctype d then Err (ENotFoundFunction n_id) else Ok (XNodes [])
+       | d :: _ => if has_doctype d then Err (ENotFoundFunction fn_id) else Ok (XNodes [])
        | [] => Ok (XNodes []) end, c)
-    else if str_eqb local n_local_name then (fn_names 0 args n, c)
-    else if str_eqb local n_namespace_uri then (fn_names 1 args n, c)
-    else if str_eqb local n_name then (fn_names 2 args n, c)
-    else if str_eqb local n_lang then
+    else if str_eqb local fn_local_name then (fn_names 0 args n, c)
+    else if str_eqb local fn_namespace_uri then (fn_names 1 args n, c)
+    else if str_eqb local fn_name then (fn_names 2 args n, c)
+    else if str_eqb local fn_lang then
       (match args with
        | a :: _ => bind (val_to_string a) (fun s => bind (lang_fuel (nav_fuel doc) s (Some n))
                                                          (fun b => Ok (XBool b)))
        | [] => Panic end, c)
-    else if str_eqb local n_sum then
+    else if str_eqb local fn_sum then
       (match args with
        | XNodes l :: _ => bind (sum_nodes f64_zero l) (fun s => Ok (XNum s))
        | _ :: _ => Err EInvalidType
        | [] => Panic end, c)
     else
-      (let need := negb (str_eqb local n_boolean || str_eqb local n_not) in
+      (let need := negb (str_eqb local fn_boolean || str_eqb local fn_not) in
        bind (to_scalars need args) (fun sargs =>
        bind (match args with
              | [] => if uses_ctx_sv local then string_value doc n else Ok []
